@@ -4,8 +4,8 @@ CONSTANTS
   Races <- RacesQ
   Dirs <- DirsQ
   Envs <- EnvsQ
-  FilterSet <- FiltersQ
-  Limits <- LimitsQ
+  FilterSet <- FiltersT
+  Limits <- LimitsT
   Foreign <- ForeignQ
   ForeignEs <- ForeignEsQ
   DeleteSets <- DeleteQ
@@ -13,6 +13,7 @@ CONSTANTS
   DPM = 2
   Backends <- AllBackends
   Faults <- BothFaults
+  StoreOnce = FALSE
   Ops <- AllOps
   Mismatch = TRUE
   NameFilterSound = TRUE
